@@ -75,7 +75,7 @@ def run(ctx):
     ctx.setup()
     ctx.audit(THEOREMS, LEAN_FILES)
     n = 2500 if ctx.tier == "quick" else 50000
-    cases = c01.load_corpus("C01") + c01.load_corpus("C02") + E.gen_cases(ctx.rng, n, p_multi=0.4, p_history=0.4)
+    cases = c01.load_corpus("C01") + c01.load_corpus("C02") + E.exhaustive_cases(ctx.tier) + E.gen_cases(ctx.rng, n, p_multi=0.4, p_history=0.4)
     for eng in ("large", "fast"):
         run_engine(ctx, eng, cases, "legal-" + eng)
     d, e = cases[-1]
